@@ -21,13 +21,14 @@ from . import ir, ptr, repo
 
 LEVEL = "other"
 MANIFEST = {
-    "text": "decides D1 (share-count consistency of every masked-word primitive call with the configured "
-            "key/data share counts, in every share triple and masked back end), D2 (linear masked-word "
-            "operations - load, store, zero, randomize, xor, from_x<B>, replace, pad/separator - preserve the "
-            "encoded value for every value of the random source and put fresh randomness into every share; "
-            "proved by a GF(2)-affine bit-level abstract interpretation) and D3 (fresh randomness drawn "
-            "before every key-share permutation); equality of the masked permutation with the unmasked one "
-            "is a non-linear functional property and is not decided",
+    "text": "decides D1 share-count consistency of every masked-word primitive call, D2 linear masked-word "
+            "operations preserve the encoded value for every value of the random source and refresh every share "
+            "(GF(2)-affine interpretation), D3 fresh randomness before every key-share permutation, D4 a masked "
+            "key object (fresh or re-randomised) extracts to its key and masked AEAD with it equals the "
+            "specification, D5 each loop iteration of the x86-64 assembly ascon_x2/x3/x4_permute and D6 of the C "
+            "(64-bit and bit-interleaved) implementations is the specification's round on the decoded shares - "
+            "polynomial identities in all share and randomness bits, exact for every state, sharing and "
+            "randomness; side-channel security (probing model) and the AVR assembly are not decided",
     "note": "trusted: clang lowering, irdump; D2 takes the word's own store function as the definition of "
             "the encoded value and treats ascon_trng_generate_64 results as fresh symbols",
     "technique": "resolved-callee arity census against preprocessor-derived share counts; GF(2)-affine "
@@ -89,6 +90,7 @@ def run(rep, tier):
     rule_key_lifecycle(rep, tier)
     from . import asm_anf
     asm_anf.rule_masked_rounds(rep, "C10.D5", tier)
+    rule_masked_rounds_c(rep, tier)
 
 
 def rule_key_lifecycle(rep, tier):
@@ -232,3 +234,122 @@ def rule_preserve(rep, m, cname, ks):
                           "random source" % (f.name, ks, sorted(need - fresh)), config=cname)
         else:
             rep.instance(rid, 1, {"config": cname, "function": f.name, "fresh_words": sorted(fresh)})
+
+
+# ---------------------------------------------------------------------------
+def _round_counter(f):
+    """(counter phi, latch value, loop) of a `while (round < 12)` loop, or None"""
+    loops = f.d.get("loops", [])
+    if len(loops) != 1:
+        return None
+    lp = loops[0]
+    hdr = f.bmap[lp["header"]]
+    blocks = set(lp["blocks"])
+    t = hdr.term
+    if t.op != "br" or not t.ops:
+        return None
+    c = f.defs.get(t.ops[0])
+    if c is None or c.op != "icmp" or ir.const_int(c.ops[1]) != 12:
+        return None
+    x = c.ops[0]
+    d = f.defs.get(x)
+    while d is not None and d.op in ("zext", "sext", "trunc"):
+        x = d.ops[0]
+        d = f.defs.get(x)
+    if d is None or d.op != "phi" or d.block is not hdr:
+        return None
+    latch = [v for v, p in d.d["inc"] if p in blocks]
+    if len(latch) != 1:
+        return None
+    return d, latch[0], lp
+
+
+def rule_masked_rounds_c(rep, tier):
+    """D6: the C implementations of ascon_x<K>_permute (64-bit and
+    bit-interleaved 32-bit word back ends): one loop iteration on symbolic
+    shares (including whatever stale higher shares the object holds) and
+    symbolic preserved randomness, decoded with the word's own store function,
+    is the specification's round on the decoded state - a polynomial identity
+    in all share and randomness bits."""
+    from . import modes
+    rid = "C10.D6"
+    rep.rule(rid, "C ascon_x<K>_permute: one loop iteration on the shares is the specification's round on the decoded state, for all randomness")
+    cfgs = [repo.Config("c64", 4, 2, 4), repo.Config("c32", 3, 3, 3)] if tier == "quick" else \
+        [repo.Config("c64", 4, 2, 4), repo.Config("c64", 3, 3, 3), repo.Config("c32", 4, 2, 4), repo.Config("c32", 3, 3, 3),
+         repo.Config("direct", 4, 3, 4), repo.Config("c64", 2, 2, 2)]
+    builds = repo.configure_many(cfgs)
+    lowered = repo.lower_many([(b, dict(group="lib", level="O0", langs=("c",), scev=True)) for b in builds])
+    items = []
+    for b, lr in zip(builds, lowered):
+        if b.cfg.name not in rep.configs:
+            rep.configs.append(b.cfg.name)
+        m = ir.Module.load(lr.json)
+        for K in (2, 3, 4):
+            f = m.funcs.get("ascon_x%d_permute" % K)
+            if f is None or f.decl:
+                continue
+            rounds = list(range(12)) if tier != "quick" or K < 4 else [0, 7, 11]
+            for r in rounds:
+                items.append((lr.json, b.cfg.name, b.cfg.maxs, K, r))
+    if not items:
+        rep.broken.append("%s: no C masked permutation found" % rid)
+        return
+    for d in modes.parallel(items, _masked_round_worker):
+        rep.merge(d)
+    rep.floor_discharged(rid, int(0.8 * len(items)))
+
+
+def _masked_round_worker(item):
+    from . import modes, report
+    from .affine import Machine, Ptr, Unsupported, const_bits
+    from .rules_c08 import spec_round, bytes_to_words, words_to_bytes
+    js, cname, maxs, K, r = item
+    rid = "C10.D6"
+    rp = report.Report("C10", "quick")
+    rp._known = []
+    m = modes.load_module(js)
+    name = "ascon_x%d_permute" % K
+    f = m.funcs[name]
+    rc = _round_counter(f)
+    if rc is None:
+        rp.unproved_item(rid, "%s %s: round loop not identified" % (cname, name))
+        return rp.export()
+    cnt, latch, lp = rc
+    inc = f.defs.get(latch) if ir.is_local(latch) else None
+    init = [v for v, p in cnt.d["inc"] if p not in set(lp["blocks"])]
+    if not (inc is not None and inc.op == "add" and inc.ops[0] == cnt.id and ir.const_int(inc.ops[1]) == 1
+            and init and (init[0] == f.params[1])):
+        rp.unproved_item(rid, "%s %s: the round counter does not run from first_round upwards in steps of one" % (cname, name))
+        return rp.export()
+    try:
+        mc = Machine(m)
+        mc.nonlinear = True
+        mc.force = {(name, latch): const_bits(12, mc.width(cnt.ty))}
+        stride = 8 * maxs
+        st = mc.new_obj("S", 5 * stride)
+        pres = mc.new_obj("P", 8 * max(K - 1, 1))
+
+        def decode():
+            bits = []
+            for i in range(5):
+                out = mc.new_obj("dec%d_%d" % (i, mc.fresh), 8, symbolic=False)
+                mc.fresh += 1
+                mc.call("ascon_masked_word_x%d_store" % K, [out, Ptr(st.obj, stride * i)])
+                bits.extend(mc.load(out, 8))
+            return bits
+        before = decode()
+        mc.call(name, [st, const_bits(r, 8), pres])
+        after = decode()
+        want = words_to_bytes(spec_round(bytes_to_words(before), r))
+    except Unsupported as e:
+        rp.unproved_item(rid, "%s %s round %d: %s" % (cname, name, r, e))
+        return rp.export()
+    diff = [k for k in range(320) if after[k] != want[k]]
+    if diff:
+        rp.violation(rid, "%s:round%d" % (name, r), f.src,
+                     "one iteration of %s for round %d does not compute the specification's round on the decoded state: %d of 320 "
+                     "decoded bits differ as polynomials in the share and randomness bits (first: word %d)" % (
+                         name, r, len(diff), diff[0] // 64), config=cname)
+    else:
+        rp.instance(rid, 1, {"config": cname, "function": name, "round": r})
+    return rp.export()
